@@ -9,8 +9,16 @@
                           declared prefixes unique per element) and no adjacent text nodes
     C03_sound_document    for `parse` also exactly one element and no text at top level
     C03_reject_*          one theorem per constraint the code enforces
+    C03_reject_endtag_prefix, C03_open_prefix_pushed, C03_open_prefixes_step   an end tag repeats the
+                          start tag's prefix AS WRITTEN (stack of written prefixes)
   Closed examples (token lists of the real tokenizer, replayed on the implementation by the
   `build` suite) accompany them.
+
+  On STRINGS, through the reference tokenizer (Model/Lex*.lean: xmlparser 0.13.6 as written; tied to
+  the crate by the `lex` suite):
+    C03_lex_shape, C03_lex_no_stray_close   the token-shape contract is a theorem of its output
+    C03_string_nopanic / _sound / _sound_document / _reject_lexerr   `parse(_fragment)` on any string
+    C03_lex_reject_*      lexical rejections after the canonical spelling of any `LexOK` token list
 -/
 import XotModel.Lemmas.ParseSound
 import XotModel.Lemmas.ParseNoPanic
@@ -18,6 +26,11 @@ import XotModel.Lemmas.Parse
 import XotModel.Lemmas.ParseContent
 import XotModel.Lemmas.ParseWitnessData
 import XotModel.Lemmas.TokenShapeB
+import XotModel.Lemmas.ParsePrefixes
+import XotModel.Lemmas.LexSlice
+import XotModel.Lemmas.LexCanon
+import XotModel.Model.ParseString
+import XotModel.Lemmas.LexRejectShapes
 
 namespace XotModel.Props
 open XotModel XotModel.Witness
@@ -117,7 +130,7 @@ theorem C03_reject_stray_close (b : Builder) (p l sp : StrSpan) (n : Nat) (env1 
   rw [hname]
   simp [hpar]
 
-/-- An end tag whose name is not the name of the open element. -/
+/-- An end tag whose (expanded) name is not the name of the open element. -/
 theorem C03_reject_mismatched_close (b : Builder) (p l sp : StrSpan) (n m : Nat) (env1 : Env)
     (hcur : b.cur.value = .element n)
     (hname : elementNameId b.env b.nsStack p.text l.text p.span = .ok (env1, m)) (hne : n ≠ m) :
@@ -128,6 +141,49 @@ theorem C03_reject_mismatched_close (b : Builder) (p l sp : StrSpan) (n m : Nat)
   split
   · rfl
   · simp [hne]
+
+/-- C03_reject_endtag_prefix: an end tag whose WRITTEN prefix is not the one written in the start
+    tag of the open element (`open_prefixes.last()`) is rejected with `InvalidCloseTag`, whatever
+    the bindings are — also when both prefixes are bound to one namespace, so that the name ids
+    agree (`m = n`), and also default namespace against prefix, in both directions. -/
+theorem C03_reject_endtag_prefix (b : Builder) (p l sp : StrSpan) (n m : Nat) (env1 : Env)
+    (hcur : b.cur.value = .element n)
+    (hname : elementNameId b.env b.nsStack p.text l.text p.span = .ok (env1, m))
+    (hpfx : b.openPrefixes.head? ≠ some p.text) :
+    b.closeElement p l sp = .err (.invalidCloseTag p.text l.text (Span.fromPrefixName p l)) env1 := by
+  unfold Builder.closeElement
+  rw [hname]
+  simp only [hcur]
+  split
+  · rfl
+  · have : samePrefix b.openPrefixes p.text = false := by
+      simp only [samePrefix, beq_eq_false_iff_ne, ne_eq]; exact hpfx
+    simp [this]
+
+/-- `open_prefixes` is the stack of the prefixes written in the start tags of the open elements:
+    `open_element` pushes the prefix of the pending start tag … -/
+theorem C03_open_prefix_pushed {b b1 : Builder} {eb : ElementBuilder} (heb : b.eb = some eb)
+    (h : b.openElement = .ok b1) : b1.openPrefixes = eb.pfx :: b.openPrefixes ∧ ∃ n, b1.cur.value = .element n :=
+  openElement_openPrefixes heb h
+
+/-- … an accepted end tag pops it (and was written with exactly that prefix), `/>` pushes and pops,
+    and no other token touches it. -/
+theorem C03_open_prefixes_step {b b' : Builder} {t : Token} (h : b.step t = .ok b') :
+    match t with
+    | .elementEnd .open _ => ∃ eb, b.eb = some eb ∧ b'.openPrefixes = eb.pfx :: b.openPrefixes
+    | .elementEnd (.close p _) _ =>
+      (∃ n, b.cur.value = .element n) → b.openPrefixes = p.text :: b'.openPrefixes
+    | _ => b'.openPrefixes = b.openPrefixes :=
+  openPrefixes_step h
+
+/-- `<p:a xmlns:p='u' xmlns:q='u'></q:a>` and `<a xmlns='u' xmlns:q='u'></q:a>` are rejected at the
+    end tag (before /repo cea05a7 both were accepted). -/
+example : (build .document endTagOtherPrefixLen Env.fresh endTagOtherPrefix none).err? =
+    some (.invalidCloseTag ['q'] ['a'] ⟨31, 34⟩) := by
+  rw [build_eq_buildE]; decide +kernel
+example : (build .document endTagDefaultVsPrefixLen Env.fresh endTagDefaultVsPrefix none).err? =
+    some (.invalidCloseTag ['q'] ['a'] ⟨27, 30⟩) := by
+  rw [build_eq_buildE]; decide +kernel
 
 /-- A prefix that no open element declares (element names, in start and end tags). -/
 theorem C03_reject_unknown_prefix (env : Env) (stack : NsStack) (pfx name : Str) (sp : Span)
@@ -249,20 +305,30 @@ example : (build .document signedRefLen Env.fresh signedRef none).err? =
     some (.invalidEntity ['+', '6', '5'] ⟨3, 9⟩) := by
   rw [build_eq_buildE]; decide +kernel
 
-/-- A second `xml:id` with a value already seen (values are compared after normalisation). -/
+/-- A second `xml:id` with a value already seen: an attribute whose NAME ID is that of xml:id
+    (expanded name (XML namespace, `id`), whatever prefix spells it) is normalised first, and the
+    normalised value is what is compared and reported. -/
 theorem C03_reject_duplicate_id (stack : NsStack) (node : Path) (st : AttrLoop) (ab : AttributeBuilder)
     (rest : List AttributeBuilder) (env1 : Env)
     (hname : attributeNameId st.env stack ab.pfx ab.name ab.prefixSpan = .ok (env1, Env.xmlIdName))
     (hnew : ¬ Env.xmlIdName ∈ st.seenNames)
-    (hseen : st.seenIds.contains ab.value = true) :
-    addAttributes stack node st (ab :: rest) = .err (.duplicateId ab.value ab.valueSpan) env1 := by
-  have hm : ab.value ∈ st.seenIds := by simpa using hseen
-  simp [addAttributes, hname, hm, hnew, Env.xmlIdName] at *
-  simp [hnew, hm]
+    (hseen : st.seenIds.contains (normalizeXmlId ab.value) = true) :
+    addAttributes stack node st (ab :: rest) =
+      .err (.duplicateId (normalizeXmlId ab.value) ab.valueSpan) env1 := by
+  have hm : normalizeXmlId ab.value ∈ st.seenIds := by simpa using hseen
+  have hc : st.seenNames.contains Env.xmlIdName = false := by simpa using hnew
+  simp only [addAttributes, hname, hc, Bool.false_eq_true, if_false, xmlIdValue, BEq.rfl, if_true, hseen,
+    Bool.and_self]
 
 /-- `<a xml:id='i'><b xml:id='  i '/></a>` is rejected. -/
 example : (build .document dupIdSpacesLen Env.fresh dupIdSpaces none).err? =
     some (.duplicateId ['i'] ⟨25, 29⟩) := by
+  rw [build_eq_buildE]; decide +kernel
+
+/-- `<a xmlns:p='http://www.w3.org/XML/1998/namespace' p:id=' x '><b xml:id='x'/></a>` is rejected
+    (before /repo 7427b0a the first value stayed ` x ` and the text was accepted). -/
+example : (build .document dupIdViaOtherPrefixLen Env.fresh dupIdViaOtherPrefix none).err? =
+    some (.duplicateId ['x'] ⟨72, 73⟩) := by
   rw [build_eq_buildE]; decide +kernel
 
 /-- C03_reject_truncated: input that ends inside a start tag. -/
@@ -287,5 +353,199 @@ example : (build .document twoRootsLen Env.fresh twoRoots none).err? =
 example : (build .document mismatchLen Env.fresh mismatch none).err? =
     some (.invalidCloseTag [] ['b'] ⟨5, 6⟩) := by
   rw [build_eq_buildE]; decide +kernel
+
+/-! ### Strings: the reference tokenizer (Model/Lex.lean — xmlparser 0.13.6 as written, total, tied
+to the crate by the `lex` suite) composed with the builder -/
+
+/-- The token-shape contract — the hypothesis of `C03_nopanic` — is a theorem about the reference
+    tokenizer: it holds of its output on EVERY string, in both modes. -/
+theorem C03_lex_shape (m : Mode) (s : Str) : TokenShape (strLen s) (lexMode m s).1 (lexMode m s).2 := by
+  cases m
+  · exact lexDocument_shape s
+  · exact lexFragment_shape s
+
+/-- In document mode the tokenizer never emits an end tag at depth 0 (in fragment mode it does:
+    `strayClose` above). -/
+theorem C03_lex_no_stray_close (s : Str) : NoStrayClose 0 (lexDocument s).1 :=
+  lexDocument_noStrayClose s
+
+/-- `parse` / `parse_fragment` never panic, on ANY string (tokenizer and builder are total
+    functions; no panic outcome is reachable). -/
+theorem C03_string_nopanic (m : Mode) (env : Env) (s : Str) : parseString m env s ≠ .panic :=
+  C03_nopanic m (strLen s) env _ _ (C03_lex_shape m s)
+
+/-- Whatever `parse` / `parse_fragment` accept, from ANY string, is structurally valid and has no
+    adjacent text nodes. -/
+theorem C03_string_sound {m : Mode} {env : Env} {s : Str} {p : Parsed}
+    (h : parseString m env s = .ok p) : StructValid p.tree ∧ NoAdjacentText p.tree :=
+  C03_sound h
+
+/-- … and for `parse`: exactly one element and no text at top level. -/
+theorem C03_string_sound_document {env : Env} {s : Str} {p : Parsed}
+    (h : parseString .document env s = .ok p) : WellFormedTop p.tree :=
+  C03_sound_document h
+
+/-- A string on which the tokenizer fails is rejected (with `ParseError::XmlParser`). -/
+theorem C03_string_reject_lexerr (m : Mode) (env : Env) (s : Str) (pos : Nat)
+    (h : (lexMode m s).2 = some pos) (p : Parsed) : parseString m env s ≠ .ok p := by
+  unfold parseString; rw [h]; exact C03_reject_lexerr m _ env _ pos p
+
+/-- Non-vacuity: the canonical spelling of `lexWitness3` (`<a>x</a>`) is accepted as a document,
+    through tokenizer and builder. -/
+def lexWitness3 : List Token :=
+  [.elementStart ⟨[], 0⟩ ⟨['a'], 0⟩ ⟨[], 0⟩, .elementEnd .open ⟨[], 0⟩, .text ⟨['x'], 0⟩,
+   .elementEnd (.close ⟨[], 0⟩ ⟨['a'], 0⟩) ⟨[], 0⟩]
+
+example : renderTokens lexWitness3 = ['<', 'a', '>', 'x', '<', '/', 'a', '>'] := by decide
+example : (parseString .document Env.fresh ['<', 'a', '>', 'x', '<', '/', 'a', '>']).isOk = true := by
+  have h := lexDocument_render lexWitness3 (by decide)
+  rw [show renderTokens lexWitness3 = ['<', 'a', '>', 'x', '<', '/', 'a', '>'] from by decide] at h
+  simp only [parseString, lexMode]
+  rw [h, build_eq_buildE]; decide +kernel
+
+/-! ### Lexical rejections (reference tokenizer)
+
+Shape of every statement: `ts` is ANY token list meeting `LexOK` (every length and depth), spelled
+canonically; what follows is ill-formed in the way named; then the tokenizer returns the tokens of
+`ts` and fails, the error position being where `ts` ended — so `parse` / `parse_fragment` reject
+the text (`C03_string_reject_lexerr`).  `frag = true` is `parse_fragment`, `false` is `parse`;
+`ctxAfter` is the tokenizer context `ts` ends in (inside a start tag / element content at depth
+`d` / before / after the root element). -/
+
+open XotModel.Lex XotModel.Lex.Canon
+
+private theorem init_ne_inTag (frag : Bool) (d : Nat) : ctxAfter frag (LexCtx.init frag) [] ≠ .inTag d := by
+  cases frag <;> simp [ctxAfter, LexCtx.init]
+
+/-- A raw `<` inside an attribute value. -/
+theorem C03_lex_reject_attr_lt (frag : Bool) (ts : List Token) (d : Nat) (p l v rest : Str)
+    (hok : LexOK frag ts = true) (hctx : ctxAfter frag (LexCtx.init frag) ts = .inTag d)
+    (hq : qnameOK p l = true) (hv : v.all (fun c => isXmlChar c && c != '"' && c != '<') = true) :
+    lexMode (modeOf frag) (renderTokens ts ++ ' ' :: (tokQName p l ++ '=' :: '"' :: (v ++ '<' :: rest))) =
+      (placeTokens 0 ts, some (strLen (renderTokens ts))) := by
+  have hn := hok
+  simp only [LexOK, Bool.and_eq_true] at hn
+  refine lexMode_reject_after frag ts _ hok (joinOK_inTag hn.2 hctx (Stops.cons _ (by decide))) ?_ ?_
+  · intro _ h; subst h; exact absurd hctx (init_ne_inTag frag d)
+  · rw [hctx]; exact failsAt_attr_lt frag d _ p l v rest hq hv
+
+/-- Element content followed by markup that begins with `<`: the common part of the next four. -/
+private theorem reject_content (frag : Bool) (ts : List Token) (d : Nat) (r : Str) (cs : Str)
+    (hr : r = '<' :: cs)
+    (hok : LexOK frag ts = true) (hctx : ctxAfter frag (LexCtx.init frag) ts = .content d)
+    (hbad : FailsAt frag (.content d) (strLen (renderTokens ts)) r) :
+    lexMode (modeOf frag) (renderTokens ts ++ r) = (placeTokens 0 ts, some (strLen (renderTokens ts))) := by
+  have hn := hok
+  simp only [LexOK, Bool.and_eq_true] at hn
+  refine lexMode_reject_after frag ts r hok
+    (joinOK_markup hn.2 (by rw [hctx]; intro e; simp) (.inr ⟨cs, hr⟩)) ?_ (by rw [hctx]; exact hbad)
+  intro _ _; rw [hr]; simp
+
+/-- An unterminated comment. -/
+theorem C03_lex_reject_unterminated_comment (frag : Bool) (ts : List Token) (d : Nat) (body : Str)
+    (hok : LexOK frag ts = true) (hctx : ctxAfter frag (LexCtx.init frag) ts = .content d)
+    (h : hasInfix ['-', '-', '>'] body = false) :
+    lexMode (modeOf frag) (renderTokens ts ++ (['<', '!', '-', '-'] ++ body)) =
+      (placeTokens 0 ts, some (strLen (renderTokens ts))) :=
+  reject_content frag ts d _ _ rfl hok hctx (failsAt_unterminated_comment frag d _ body h)
+
+/-- `--` inside a comment, or a comment body ending in `-`. -/
+theorem C03_lex_reject_comment_dashes (frag : Bool) (ts : List Token) (d : Nat) (body rest : Str)
+    (hok : LexOK frag ts = true) (hctx : ctxAfter frag (LexCtx.init frag) ts = .content d)
+    (h : hasInfix ['-', '-', '>'] body = false)
+    (hd : hasInfix ['-', '-'] body = true ∨ body.getLast? = some '-') :
+    lexMode (modeOf frag) (renderTokens ts ++ (['<', '!', '-', '-'] ++ (body ++ ['-', '-', '>'] ++ rest))) =
+      (placeTokens 0 ts, some (strLen (renderTokens ts))) :=
+  reject_content frag ts d _ _ rfl hok hctx (failsAt_comment_dashes frag d _ body rest h hd)
+
+/-- An unterminated CDATA section. -/
+theorem C03_lex_reject_unterminated_cdata (frag : Bool) (ts : List Token) (d : Nat) (body : Str)
+    (hok : LexOK frag ts = true) (hctx : ctxAfter frag (LexCtx.init frag) ts = .content d)
+    (h : hasInfix [']', ']', '>'] body = false) :
+    lexMode (modeOf frag) (renderTokens ts ++ (['<', '!', '[', 'C', 'D', 'A', 'T', 'A', '['] ++ body)) =
+      (placeTokens 0 ts, some (strLen (renderTokens ts))) :=
+  reject_content frag ts d _ _ rfl hok hctx (failsAt_unterminated_cdata frag d _ body h)
+
+/-- An unterminated processing instruction. -/
+theorem C03_lex_reject_unterminated_pi (frag : Bool) (ts : List Token) (d : Nat) (body : Str)
+    (hok : LexOK frag ts = true) (hctx : ctxAfter frag (LexCtx.init frag) ts = .content d)
+    (h : hasInfix ['?', '>'] body = false) :
+    lexMode (modeOf frag) (renderTokens ts ++ (['<', '?'] ++ body)) =
+      (placeTokens 0 ts, some (strLen (renderTokens ts))) :=
+  reject_content frag ts d _ _ rfl hok hctx (failsAt_unterminated_pi frag d _ body h)
+
+/-- `]]>` in character data (`hj`: the text does not directly follow another text token or a
+    start-tag name, which it would extend). -/
+theorem C03_lex_reject_cdata_close_in_text (frag : Bool) (ts : List Token) (d : Nat) (body rest : Str)
+    (hok : LexOK frag ts = true) (hctx : ctxAfter frag (LexCtx.init frag) ts = .content d)
+    (hj : JoinOK ts (body ++ rest)) (hne : body ≠ [])
+    (hall : body.all (fun c => isXmlChar c && c != '<') = true)
+    (hinf : hasInfix [']', ']', '>'] body = true) (hrest : rest = [] ∨ ∃ cs, rest = '<' :: cs)
+    (hbom : body.head? ≠ some '﻿') :
+    lexMode (modeOf frag) (renderTokens ts ++ (body ++ rest)) =
+      (placeTokens 0 ts, some (strLen (renderTokens ts))) := by
+  refine lexMode_reject_after frag ts _ hok hj ?_
+    (by rw [hctx]; exact failsAt_text_cdata_close frag d _ body rest hne hall hinf hrest)
+  intro _ _
+  cases body with
+  | nil => exact absurd rfl hne
+  | cons c cs => simpa using hbom
+
+/-- Character data before the root element of a document (`ts`: comments and PIs only). -/
+theorem C03_lex_reject_text_before_root (ts : List Token) (c : Char) (rest : Str)
+    (hok : LexOK false ts = true) (hctx : ctxAfter false .prolog ts = .prolog)
+    (hc : c ≠ '<') (hsp : isXmlSpace c = false) (hbom : c ≠ '﻿') :
+    lexDocument (renderTokens ts ++ c :: rest) = (placeTokens 0 ts, some (strLen (renderTokens ts))) := by
+  have hn := hok
+  simp only [LexOK, Bool.and_eq_true] at hn
+  refine lexDocument_reject_after ts _ hok (joinOK_outside hn.2 (.inl hctx)) ?_ ?_
+  · intro _; simpa using hbom
+  · rw [hctx]; exact failsAt_text_prolog _ c rest hc hsp
+
+/-- Character data after the root element of a document. -/
+theorem C03_lex_reject_text_after_root (ts : List Token) (c : Char) (rest : Str)
+    (hok : LexOK false ts = true) (hctx : ctxAfter false .prolog ts = .after)
+    (hc : c ≠ '<') (hsp : isXmlSpace c = false) :
+    lexDocument (renderTokens ts ++ c :: rest) = (placeTokens 0 ts, some (strLen (renderTokens ts))) := by
+  have hn := hok
+  simp only [LexOK, Bool.and_eq_true] at hn
+  refine lexDocument_reject_after ts _ hok (joinOK_outside hn.2 (.inr hctx)) ?_ ?_
+  · intro h; subst h; simp [ctxAfter] at hctx
+  · rw [hctx]; exact failsAt_text_after _ c rest hc hsp
+
+/-- A second root element: in document mode this is already a TOKENIZER error (the tokenizer is in
+    `AfterElements`), so `parse` reports `XmlParser`, never `MultipleElementsAtTopLevel`, for it. -/
+theorem C03_lex_reject_second_root (ts : List Token) (rest : Str)
+    (hok : LexOK false ts = true) (hctx : ctxAfter false .prolog ts = .after)
+    (h1 : rest.head? ≠ some '!') (h2 : rest.head? ≠ some '?') :
+    lexDocument (renderTokens ts ++ '<' :: rest) = (placeTokens 0 ts, some (strLen (renderTokens ts))) := by
+  have hn := hok
+  simp only [LexOK, Bool.and_eq_true] at hn
+  refine lexDocument_reject_after ts _ hok (joinOK_outside hn.2 (.inr hctx)) ?_ ?_
+  · intro h; subst h; simp [ctxAfter] at hctx
+  · rw [hctx]; exact failsAt_second_root _ rest h1 h2
+
+/-- Non-vacuity: `<a b="x<"` (raw `<` in a value, after `<a`), `<a><!--x` (unterminated comment in
+    content), `<a/><b/>` (second root), `x<a/>` (text before the root). -/
+example : LexOK false [.elementStart ⟨[], 0⟩ ⟨['a'], 0⟩ ⟨[], 0⟩] = true ∧
+    ctxAfter false (LexCtx.init false) [.elementStart ⟨[], 0⟩ ⟨['a'], 0⟩ ⟨[], 0⟩] = .inTag 0 := by decide
+example : lexDocument ['<', 'a', ' ', 'b', '=', '"', 'x', '<', '"'] =
+    ([.elementStart ⟨[], 0⟩ ⟨['a'], 1⟩ ⟨['<', 'a'], 0⟩], some 2) :=
+  C03_lex_reject_attr_lt false [.elementStart ⟨[], 0⟩ ⟨['a'], 0⟩ ⟨[], 0⟩] 0 [] ['b'] ['x'] ['"']
+    (by decide) (by decide) (by decide) (by decide)
+example : (lexDocument ['<', 'a', '>', '<', '!', '-', '-', 'x']).2 = some 3 := by
+  have := C03_lex_reject_unterminated_comment false
+    [.elementStart ⟨[], 0⟩ ⟨['a'], 0⟩ ⟨[], 0⟩, .elementEnd .open ⟨[], 0⟩] 1 ['x']
+    (by decide) (by decide) (by decide)
+  simp only [modeOf, lexMode] at this
+  exact congrArg Prod.snd this
+example : (lexDocument ['<', 'a', '/', '>', '<', 'b', '/', '>']).2 = some 4 := by
+  have := C03_lex_reject_second_root
+    [.elementStart ⟨[], 0⟩ ⟨['a'], 0⟩ ⟨[], 0⟩, .elementEnd .empty ⟨[], 0⟩] ['b', '/', '>']
+    (by decide) (by decide) (by decide) (by decide)
+  exact congrArg Prod.snd this
+example : lexDocument ['x', '<', 'a', '/', '>'] = ([], some 0) :=
+  C03_lex_reject_text_before_root [] 'x' ['<', 'a', '/', '>'] (by decide) (by decide) (by decide)
+    (by decide) (by decide)
 
 end XotModel.Props
